@@ -2,8 +2,10 @@
 //! Usage:
 //!   lcv run <Cxx> --tier quick|thorough --seed N --shard i --shards W [--cases N] --out file.json
 //!   lcv replay <Cxx> <case.json>
+pub mod oracle;
 pub mod pbt;
 pub mod props;
+pub mod sim;
 
 use pbt::{Property, Tier};
 use serde_json::Value;
@@ -17,6 +19,7 @@ pub fn tmp_root() -> String {
 macro_rules! dispatch {
     ($id:expr, $f:ident, $($args:expr),*) => {
         match $id {
+            "C05" => pbt::$f::<props::c05::C05>($($args),*),
             "C14" => pbt::$f::<props::c14::C14>($($args),*),
             "C15" => pbt::$f::<props::c15::C15>($($args),*),
             other => {
